@@ -7,7 +7,7 @@
      fmt_wf d w2 f     = every field fits its zero-padded width; '-' only in front of a value < 0 *)
 From Coq Require Import ZArith QArith Qround List Bool String.
 From Droop Require Import Model.KernelBase Model.Arith Gen.FixedKernels Gen.GuardedKernels
-  Proofs.ArithLemmas Proofs.C14Proofs.
+  Proofs.ArithLemmas Proofs.C14Proofs Proofs.C14Nearest.
 Open Scope Z_scope.
 
 Theorem C14_fixed_str : forall p d0 v, 0 <= p ->
@@ -29,6 +29,16 @@ Theorem C14_rational_str : forall dp (q : Q), 0 <= dp ->
   let f := rational_fmt dp q in fmt_wf dp 0 f /\ fmt_value dp 0 f = half_up q dp.
 Proof. exact c14_rational. Qed.
 Print Assumptions C14_rational_str.
+
+(* half_up, which the three theorems above print, is the property's "rounded half-up" and not merely a floor formula:
+   in display units the printed integer is within half a unit of the exact value, a tie goes upward, and no other
+   integer qualifies *)
+Theorem C14_half_up_is_nearest : forall (x : Q) (d : Z),
+  let y := (x * inject_Z (10 ^ d))%Q in
+  ((inject_Z (half_up x d) - (1 # 2) <= y)%Q /\ (y < inject_Z (half_up x d) + (1 # 2))%Q) /\
+  (forall n, (inject_Z n - (1 # 2) <= y)%Q -> (y < inject_Z n + (1 # 2))%Q -> n = half_up x d).
+Proof. exact c14_half_up_is_nearest. Qed.
+Print Assumptions C14_half_up_is_nearest.
 
 (* non-vacuity, including the values the unfixed code misprinted (-0.5 printed as -1.500) *)
 Example C14_concrete :
